@@ -133,15 +133,16 @@ def to_rdflib(t):
     raise ValueError(t)
 
 
-def from_rdflib(o):
+def from_rdflib(o, graph_pos: bool = False):
     import rdflib  # noqa: PLC0415
     from rdflib.graph import DATASET_DEFAULT_GRAPH_ID  # noqa: PLC0415
 
     if isinstance(o, rdflib.Graph):
         o = o.identifier
+        graph_pos = True
     if isinstance(o, rdflib.URIRef):
-        if o == DATASET_DEFAULT_GRAPH_ID:
-            return ("D",)
+        if graph_pos and o == DATASET_DEFAULT_GRAPH_ID:
+            return ("D",)  # only in graph position; elsewhere it is an ordinary IRI
         return ("I", str(o))
     if isinstance(o, rdflib.BNode):
         return ("B", str(o))
@@ -158,7 +159,7 @@ def st_to_rdflib(st):
 
 
 def st_from_rdflib(st, graph_pos_default: bool = True) -> tuple:
-    out = [from_rdflib(t) for t in st]
+    out = [from_rdflib(t, graph_pos=(i == 3)) for i, t in enumerate(st)]
     return tuple(out)
 
 
@@ -170,11 +171,19 @@ def ev_from_rdflib(item):
     return ("st", norm_st(st_from_rdflib(item)))
 
 
+_SENTINEL = "urn:x-rdflib:default"
+
+
 def is_rdf11(st) -> bool:
-    """RDF 1.1 positions: s IRI|BNode, p IRI, o IRI|BNode|Literal, g IRI|BNode|default."""
+    """Statement that the rdflib integration represents faithfully: RDF 1.1 positions
+    (s IRI|BNode, p IRI, o IRI|BNode|Literal, g IRI|BNode|default), every term an rdflib
+    normalisation fixpoint, and no graph named like rdflib's own default-graph sentinel."""
     if st[0][0] not in "IB" or st[1][0] != "I" or st[2][0] not in "IBL":
         return False
-    return len(st) == 3 or st[3][0] in "IBD"
+    if len(st) == 4 and (st[3][0] not in "IBD" or st[3] == ("I", _SENTINEL)
+                         or st[3] in (("I", ""), ("B", ""))):
+        return False  # (rdflib replaces an empty graph identifier by a fresh blank node)
+    return all(from_rdflib(to_rdflib(t), graph_pos=(i == 3)) == tuple(t) for i, t in enumerate(st))
 
 
 def rdflib_fixpoint(t) -> bool:
